@@ -202,7 +202,7 @@ func c14Auths(n int) ([]types.AuthorityRaw, []types.GrandpaAuthoritiesRaw, func(
 type c14Case struct {
 	name string
 	want []byte
-	enc  func() ([]byte, error)      // real encoder
+	enc  func() ([]byte, error)       // real encoder
 	dec  func(in []byte) (any, error) // real decoder
 	val  any                          // expected decoded value (built from the description, not by decoding)
 }
